@@ -106,6 +106,17 @@ check("C11", "exploration",
       "Dependence class known by construction and cross-checked with CPython label tracking in C10. Small scope (<=1 link).",
       "bounded exhaustive enumeration of programs x rule sets, rule-matching model + construction-known dependence oracle", "DESIGN.md §2 C11")
 
+check("C13", "exploration",
+      "Complete sweep of 16 adversarial program families - direct recursion, mutual-recursion ring, higher-order self application, "
+      "cyclic import ring, cyclic object graph, loops nested n deep, call chains with 1/2/3 call sites per function, many call sites, "
+      "hostile constants (9**9**9, p**q**q, 1<<99999999), long strings, deep parenthesisation, string repetition - x n in {1,2,4,8} "
+      "(thorough 16) x p2 on/off through the real `run` pipeline in forked children with a CPU budget (60 s; thorough 150 s). "
+      "Oracle: finishes within the budget without unhandled exception, and the deterministic work counter (compute_stmt_states "
+      "calls) grows with exponent <= 4 on the largest doubling.",
+      "A bounded sweep cannot prove polynomial growth for all programs: it decides termination within budget for everything "
+      "enumerated and refutes polynomial growth only on the named families. Counters, not wall-clock, decide growth.",
+      "exhaustive sweep of parameterised input families, budget + growth-exponent oracle", "DESIGN.md §2 C13")
+
 check("C14", "exploration",
       "Finite configuration product of real separate processes (the lian CLI behind a launcher that only adds a pure yaml parse "
       "cache): 8 multi-file projects (6 Python incl. taint flows, callbacks, inheritance, packages; JavaScript; Java) x hash seeds "
